@@ -20,6 +20,9 @@ one() { # $1 = slot, $2 = id
   git -C $R checkout -q -- . ; git -C $R clean -fdq
   if ! git -C $R apply --whitespace=nowarn /verif/seeded/$id/patch.diff 2>/dev/null; then echo "$id apply-failed"; return; fi
   build=ok; (cd $R && go build ./... ) >/dev/null 2>&1 || build=FAIL
+  if [ -n "$TESTS" ]; then # the repository's own test suite must still pass with the change
+    (cd $R && go test -vet=off -count=1 ./... ) >/dev/null 2>&1 && (cd $R/example && go build ./... && go test -vet=off -count=1 . ./permessage ./proto3) >/dev/null 2>&1 && build=ok+tests || build=TESTS-FAIL
+  fi
   full=$(cd $V && VERIF_DIR=$V VERIF_REPO=$R timeout 1800 ./check $prop --tier $tier 2>&1)
   git -C $R checkout -q -- . ; git -C $R clean -fdq
   verdict=MISSED; echo "$full" | grep -q "^VIOLATION property=$prop" && verdict=CAUGHT
@@ -29,7 +32,7 @@ one() { # $1 = slot, $2 = id
   echo "$id check=$prop build=$build tier=$tier $verdict $kind :: $summary"
   if [ $verdict = CAUGHT ] && [ -f $V/replays/$prop-1.json ]; then jq -c '{kind, broken: .broken_obligations, first: (.violations[0] // .disagreements[0] // null)}' $V/replays/$prop-1.json 2>/dev/null | cut -c1-1500 > /verif/seeded/$id/check-output.json; fi
 }
-export -f one; export pool over tier
+export -f one; export pool over tier TESTS
 # deal the ids out to the slots round-robin; each slot works through its share sequentially
 for k in $(seq 0 $((J-1))); do
   ( i=0; for id in "${ids[@]}"; do [ $((i % J)) = $k ] && one $k $id; i=$((i+1)); done ) &
